@@ -293,3 +293,8 @@ for _c in make_helper:
     _c.callees = {}
     _c.lib = dict(LIB)
 CONTRACTS += make_helper
+
+
+def EXTRA():
+    from . import chain as _CHX
+    return _CHX.frame_effects(PROPERTY)
